@@ -1,9 +1,10 @@
 /-
 C28 — lemmas about the character-set part of the wire form (Gms/Model/WireCs.lean): every encoder
 produces at most `maxLen` bytes per code point, the closed form of the SET/ENUM length loops, the
-length of a comma-joined selection.
+length of a comma-joined selection; `decodeCs ∘ encode = id` for each of the seven encoders.
 -/
 import Gms.Model.WireCs
+import Gms.Lemmas.Utf8
 
 namespace Gms.WireCs
 open Gms.Utf8
@@ -174,4 +175,283 @@ theorem setText_length_le (ms : List Str) (b : Nat) :
   rw [setText, joinComma_length]
   omega
 
+/-! ## Round trip of the transcoding -/
+
+theorem encode_cons (c : Cs) (r : Nat) (rs : Str) (bs : Bytes) (h : encode c (r :: rs) = some bs) :
+    ∃ a b, encodeCp c r = some a ∧ encode c rs = some b ∧ bs = a ++ b := by
+  unfold encode at h
+  cases h1 : encodeCp c r with
+  | none => simp [h1] at h
+  | some a =>
+    cases h2 : encode c rs with
+    | none => simp [h1, h2] at h
+    | some b =>
+      simp only [h1, h2, Option.some.injEq] at h
+      exact ⟨a, b, rfl, rfl, h.symm⟩
+
+theorem encodeCp_scalar (c : Cs) (r : Nat) (a : Bytes) (h : encodeCp c r = some a) : isScalar r = true := by
+  unfold encodeCp at h
+  split at h
+  · exact absurd h (by simp)
+  · rename_i hs; simpa using hs
+
+/-- utf32 -/
+theorem decode_encode_utf32 : ∀ (s : Str) (bs : Bytes) (fuel : Nat), encode .utf32 s = some bs → s.length < fuel →
+    decodeCs .utf32 fuel bs = some s
+  | [], bs, fuel, h, hf => by
+    simp only [encode, Option.some.injEq] at h
+    subst h
+    obtain ⟨f, rfl⟩ : ∃ f, fuel = f + 1 := ⟨fuel - 1, by simp at hf; omega⟩
+    simp [decodeCs]
+  | r :: rs, bs, fuel, h, hf => by
+    obtain ⟨a, b, ha, hb, rfl⟩ := encode_cons _ _ _ _ h
+    have hs := encodeCp_scalar _ _ _ ha
+    obtain ⟨f, rfl⟩ : ∃ f, fuel = f + 1 := ⟨fuel - 1, by simp at hf; omega⟩
+    have ih := decode_encode_utf32 rs b f hb (by simp at hf; omega)
+    simp only [encodeCp, hs, Bool.not_true, Bool.false_eq_true, if_false, Option.some.injEq] at ha
+    subst ha
+    have hr : r < 0x110000 := by
+      simp only [isScalar, Bool.or_eq_true, Bool.and_eq_true, decide_eq_true_eq] at hs; omega
+    have hu : r / 65536 * 65536 + r / 256 % 256 * 256 + r % 256 = r := by omega
+    simp [decodeCs, hu, hs, ih]
+
+theorem fuel_succ (fuel n : Nat) (h : n < fuel) : ∃ f, fuel = f + 1 := ⟨fuel - 1, by omega⟩
+
+/-- ascii -/
+theorem decode_encode_ascii : ∀ (s : Str) (bs : Bytes) (fuel : Nat), encode .ascii s = some bs → s.length < fuel →
+    decodeCs .ascii fuel bs = some s
+  | [], bs, fuel, h, hf => by
+    simp only [encode, Option.some.injEq] at h
+    subst h
+    obtain ⟨f, rfl⟩ := fuel_succ _ _ hf
+    simp [decodeCs]
+  | r :: rs, bs, fuel, h, hf => by
+    obtain ⟨a, b, ha, hb, rfl⟩ := encode_cons _ _ _ _ h
+    have hs := encodeCp_scalar _ _ _ ha
+    obtain ⟨f, rfl⟩ := fuel_succ _ _ hf
+    have ih := decode_encode_ascii rs b f hb (by simp at hf; omega)
+    simp only [encodeCp, hs, Bool.not_true, Bool.false_eq_true, if_false] at ha
+    split at ha
+    · rename_i hlt
+      simp only [Option.some.injEq] at ha
+      subst ha
+      simp [decodeCs, hlt, ih]
+    · exact absurd ha (by simp)
+
+theorem findIdx_getD (x : Nat) : ∀ (l : List Nat) (i : Nat), l.findIdx? (· == x) = some i →
+    l[i]? = some x
+  | [], i, h => by simp at h
+  | y :: rest, i, h => by
+    rw [List.findIdx?_cons] at h
+    split at h
+    · rename_i hy
+      simp only [Option.some.injEq] at h
+      subst h
+      simp only [beq_iff_eq] at hy
+      simp [hy]
+    · cases hr : rest.findIdx? (· == x) with
+      | none => simp [hr] at h
+      | some j =>
+        simp only [hr, Option.map_some, Option.some.injEq] at h
+        subst h
+        have := findIdx_getD x rest j hr
+        simpa using this
+
+theorem latin1Cp_byte (r b : Nat) (h : latin1Byte? r = some b) : latin1Cp b = r := by
+  unfold latin1Byte? at h
+  split at h
+  · rename_i hr
+    simp only [Option.some.injEq] at h
+    subst h
+    unfold latin1Cp
+    rw [if_neg (by omega)]
+  · cases hi : cp1252Hi.findIdx? (· == r) with
+    | none => simp [hi] at h
+    | some i =>
+      simp only [hi, Option.map_some, Option.some.injEq] at h
+      subst h
+      have hg' := findIdx_getD r cp1252Hi i hi
+      have hlt : i < cp1252Hi.length := (List.getElem?_eq_some_iff.mp hg').1
+      have hg : cp1252Hi.getD i 0 = r := by simp [List.getD, hg']
+      have h32 : cp1252Hi.length = 32 := by decide
+      unfold latin1Cp
+      rw [if_pos (by omega)]
+      have : 128 + i - 128 = i := by omega
+      rw [this, hg]
+
+/-- latin1 (cp1252) -/
+theorem decode_encode_latin1 : ∀ (s : Str) (bs : Bytes) (fuel : Nat), encode .latin1 s = some bs → s.length < fuel →
+    decodeCs .latin1 fuel bs = some s
+  | [], bs, fuel, h, hf => by
+    simp only [encode, Option.some.injEq] at h
+    subst h
+    obtain ⟨f, rfl⟩ := fuel_succ _ _ hf
+    simp [decodeCs]
+  | r :: rs, bs, fuel, h, hf => by
+    obtain ⟨a, b, ha, hb, rfl⟩ := encode_cons _ _ _ _ h
+    have hs := encodeCp_scalar _ _ _ ha
+    obtain ⟨f, rfl⟩ := fuel_succ _ _ hf
+    have ih := decode_encode_latin1 rs b f hb (by simp at hf; omega)
+    simp only [encodeCp, hs, Bool.not_true, Bool.false_eq_true, if_false] at ha
+    cases hb' : latin1Byte? r with
+    | none => simp [hb'] at ha
+    | some x =>
+      simp only [hb', Option.map_some, Option.some.injEq] at ha
+      subst ha
+      simp [decodeCs, ih, latin1Cp_byte r x hb']
+
+/-- utf16 (big endian, surrogate pairs) -/
+theorem decode_encode_utf16 : ∀ (s : Str) (bs : Bytes) (fuel : Nat), encode .utf16 s = some bs → s.length < fuel →
+    decodeCs .utf16 fuel bs = some s
+  | [], bs, fuel, h, hf => by
+    simp only [encode, Option.some.injEq] at h
+    subst h
+    obtain ⟨f, rfl⟩ := fuel_succ _ _ hf
+    simp [decodeCs]
+  | r :: rs, bs, fuel, h, hf => by
+    obtain ⟨a, b, ha, hb, rfl⟩ := encode_cons _ _ _ _ h
+    have hs := encodeCp_scalar _ _ _ ha
+    obtain ⟨f, rfl⟩ := fuel_succ _ _ hf
+    have ih := decode_encode_utf16 rs b f hb (by simp at hf; omega)
+    have hsc := (isScalar_iff r).mp hs
+    simp only [encodeCp, hs, Bool.not_true, Bool.false_eq_true, if_false] at ha
+    split at ha
+    · rename_i hlt
+      simp only [Option.some.injEq] at ha
+      subst ha
+      have hu : r / 256 * 256 + r % 256 = r := by omega
+      have hc : r < 0xD800 ∨ 0xE000 ≤ r := by omega
+      simp [decodeCs, hu, hc, ih]
+    · rename_i hge
+      simp only [Option.some.injEq] at ha
+      subst ha
+      have hu : (0xD800 + (r - 0x10000) / 1024) / 256 * 256 + (0xD800 + (r - 0x10000) / 1024) % 256 =
+          0xD800 + (r - 0x10000) / 1024 := Nat.div_add_mod' _ _
+      have hl : (0xDC00 + (r - 0x10000) % 1024) / 256 * 256 + (0xDC00 + (r - 0x10000) % 1024) % 256 =
+          0xDC00 + (r - 0x10000) % 1024 := Nat.div_add_mod' _ _
+      have hc1 : ¬ (0xD800 + (r - 0x10000) / 1024 < 0xD800 ∨ 0xE000 ≤ 0xD800 + (r - 0x10000) / 1024) := by omega
+      have hc2 : 0xD800 + (r - 0x10000) / 1024 < 0xDC00 ∧ 0xDC00 ≤ 0xDC00 + (r - 0x10000) % 1024 ∧
+          0xDC00 + (r - 0x10000) % 1024 < 0xE000 := by omega
+      have hv : 0x10000 + (0xD800 + (r - 0x10000) / 1024 - 0xD800) * 1024 + (0xDC00 + (r - 0x10000) % 1024 - 0xDC00) = r := by
+        omega
+      simp only [decodeCs, List.cons_append, List.nil_append, hu, hl, hc1, hc2, hv, if_false, if_true, and_self, ih, Option.map_some]
+
+
+/-- the UTF-8 family passes the Go string through -/
+theorem encode_utf8_family (c : Cs) (hc : c = .utf8mb4 ∨ c = .binary ∨ c = .utf8mb3) : ∀ (s : Str) (bs : Bytes),
+    encode c s = some bs →
+    bs = encodeRunes s ∧ (∀ r ∈ s, isScalar r = true) ∧ (c = .utf8mb3 → ∀ r ∈ s, r < 0x10000)
+  | [], bs, h => by
+    simp only [encode, Option.some.injEq] at h
+    subst h
+    simp [encodeRunes]
+  | r :: rs, bs, h => by
+    obtain ⟨a, b, ha, hb, rfl⟩ := encode_cons _ _ _ _ h
+    have hs := encodeCp_scalar _ _ _ ha
+    obtain ⟨ih1, ih2, ih3⟩ := encode_utf8_family c hc rs b hb
+    have hae : a = encodeRune r ∧ (c = .utf8mb3 → r < 0x10000) := by
+      rcases hc with rfl | rfl | rfl
+      · simp only [encodeCp, hs, Bool.not_true, Bool.false_eq_true, if_false, Option.some.injEq] at ha
+        exact ⟨ha.symm, by simp⟩
+      · simp only [encodeCp, hs, Bool.not_true, Bool.false_eq_true, if_false, Option.some.injEq] at ha
+        exact ⟨ha.symm, by simp⟩
+      · simp only [encodeCp, hs, Bool.not_true, Bool.false_eq_true, if_false] at ha
+        split at ha
+        · rename_i hlt
+          simp only [Option.some.injEq] at ha
+          exact ⟨ha.symm, fun _ => hlt⟩
+        · exact absurd ha (by simp)
+    refine ⟨by rw [hae.1, ih1]; rfl, ?_, ?_⟩
+    · intro x hx
+      rcases List.mem_cons.1 hx with rfl | hx
+      · exact hs
+      · exact ih2 x hx
+    · intro h3 x hx
+      rcases List.mem_cons.1 hx with rfl | hx
+      · exact hae.2 h3
+      · exact ih3 h3 x hx
+
+theorem decode_encode_utf8_family (c : Cs) (hc : c = .utf8mb4 ∨ c = .binary ∨ c = .utf8mb3) (s : Str) (bs : Bytes)
+    (fuel : Nat) (h : encode c s = some bs) (hf : 0 < fuel) : decodeCs c fuel bs = some s := by
+  obtain ⟨rfl, hsc, h3⟩ := encode_utf8_family c hc s bs h
+  obtain ⟨f, rfl⟩ := fuel_succ _ _ hf
+  have hv := valid_encode s hsc
+  have hd := decode_encode s hsc
+  cases s with
+  | nil => rcases hc with rfl | rfl | rfl <;> simp [decodeCs, encodeRunes]
+  | cons r rs =>
+    have hne : encodeRunes (r :: rs) ≠ [] := by
+      have := encodeRune_length_pos r
+      intro he
+      have hl := congrArg List.length he
+      simp only [encodeRunes, List.length_append, List.length_nil] at hl
+      omega
+    cases hb : encodeRunes (r :: rs) with
+    | nil => exact absurd hb hne
+    | cons x xs =>
+      rw [hb] at hv hd
+      rcases hc with rfl | rfl | rfl
+      · simp [decodeCs, hv, hd]
+      · simp [decodeCs, hv, hd]
+      · have hall : (r :: rs).all (· < 0x10000) = true := by
+          simp only [List.all_eq_true, decide_eq_true_eq]
+          exact h3 rfl
+        simp only [decodeCs, hv, hd, hall, Bool.and_self, if_true]
+
+/-- **Round trip of the transcoding**: for each of the seven encoders, decoding what `Encode` produced
+yields the code points again. -/
+theorem decode_encode_cs (c : Cs) (s : Str) (bs : Bytes) (fuel : Nat) (h : encode c s = some bs)
+    (hf : s.length < fuel) : decodeCs c fuel bs = some s := by
+  cases c
+  case utf8mb4 => exact decode_encode_utf8_family _ (Or.inl rfl) s bs fuel h (by omega)
+  case utf8mb3 => exact decode_encode_utf8_family _ (Or.inr (Or.inr rfl)) s bs fuel h (by omega)
+  case binary => exact decode_encode_utf8_family _ (Or.inr (Or.inl rfl)) s bs fuel h (by omega)
+  case latin1 => exact decode_encode_latin1 s bs fuel h hf
+  case ascii => exact decode_encode_ascii s bs fuel h hf
+  case utf16 => exact decode_encode_utf16 s bs fuel h hf
+  case utf32 => exact decode_encode_utf32 s bs fuel h hf
+
+/-- every encoder produces at least one byte per code point -/
+theorem encode_length_ge (c : Cs) : ∀ (s : Str) (bs : Bytes), encode c s = some bs → s.length ≤ bs.length
+  | [], bs, h => by simp
+  | r :: rs, bs, h => by
+    obtain ⟨a, b, ha, hb, rfl⟩ := encode_cons _ _ _ _ h
+    have ih := encode_length_ge c rs b hb
+    have hs := encodeCp_scalar _ _ _ ha
+    have ha1 : 1 ≤ a.length := by
+      simp only [encodeCp, hs, Bool.not_true, Bool.false_eq_true, if_false] at ha
+      have := encodeRune_length_pos r
+      cases c <;> simp only at ha
+      case utf8mb4 => simp only [Option.some.injEq] at ha; subst ha; exact this
+      case binary => simp only [Option.some.injEq] at ha; subst ha; exact this
+      case utf8mb3 =>
+        split at ha
+        · simp only [Option.some.injEq] at ha; subst ha; exact this
+        · exact absurd ha (by simp)
+      case ascii =>
+        split at ha
+        · simp only [Option.some.injEq] at ha; subst ha; simp
+        · exact absurd ha (by simp)
+      case latin1 =>
+        cases hb' : latin1Byte? r with
+        | none => simp [hb'] at ha
+        | some x => simp [hb'] at ha; subst ha; simp
+      case utf16 =>
+        split at ha <;> (simp only [Option.some.injEq] at ha; subst ha; simp)
+      case utf32 => simp only [Option.some.injEq] at ha; subst ha; simp
+    simp only [List.length_append, List.length_cons]
+    omega
+
+/-- **`roundTrip` holds whenever the value can be sent at all**. -/
+theorem roundTrip_of_sent (res : Res) (t : Ty) (v : Val) (bs : Bytes) (h : sentText res t v = some bs) :
+    roundTrip res t v = true := by
+  unfold roundTrip
+  unfold sentText at h
+  cases hp : plainText t v with
+  | none => simp [hp] at h
+  | some s =>
+    simp only [hp] at h
+    simp only [sentText, hp, h]
+    have := decode_encode_cs _ s bs (bs.length + 1) h (by have := encode_length_ge _ s bs h; omega)
+    simp [this]
 end Gms.WireCs
